@@ -39,7 +39,7 @@ def render_file(sections: Dict[str, Any], header_comment: str = "") -> str:
     out = []
     if header_comment:
         out.append(f"# {header_comment}")
-    for sec in ("compiler_options",) + SECTIONS:
+    for sec in ("metadata", "compiler_options") + SECTIONS:
         if sec not in sections or sections[sec] is None:
             continue
         v = sections[sec]
